@@ -18,7 +18,7 @@ EXPLANATION = (
     'new SETUP; (d) a store that replaces the stream table is dominated, with no suspension point in between, by '
     'failing every entry of the table being replaced, so no request registered since the last close sequence is '
     'orphaned. Not decided: that requests issued afterwards are served (liveness).')
-EXPLANATION_ADDED = ('(e) reconnect() sets the event the listener waits on; each iteration waits first, skips while a connect is in progress, otherwise marks, clears, closes, connects, and the mark is taken back on every exit of the connect attempt; (f) the transport taken from the provider resolves the transport future and is connected, the closing flag is cleared before the tasks start. Every exit of the old receiver - cancellation by the reconnect included - reaches the close sequence that fails what was pending (shared C11.a). (g) _stop_tasks, which is re-entered by the reconnect listener while the old receiver is still in it, clears each task attribute only after the task read from that attribute has been cancelled and awaited.')
+EXPLANATION_ADDED = ('(e) reconnect() sets the event the listener waits on; each iteration waits first, skips while a connect is in progress, otherwise marks, clears, closes, connects, and the mark is taken back on every exit of the connect attempt; (f) the transport taken from the provider resolves the transport future and is connected, the closing flag is cleared before the tasks start. Every exit of the old receiver - cancellation by the reconnect included - reaches the close sequence that fails what was pending (shared C11.a). (g) _stop_tasks, which is re-entered by the reconnect listener while the old receiver is still in it, clears each task attribute only after the task read from that attribute has been cancelled and awaited. (round 15) _close_transport has no exit without close() other than finding the transport future not done or holding None - whatever the cause of the reconnect (keepalive timeout included).')
 EXPLANATION = EXPLANATION.replace(' Not decided', ' ' + EXPLANATION_ADDED + ' Not decided', 1) \
     if ' Not decided' in EXPLANATION else EXPLANATION + ' ' + EXPLANATION_ADDED
 ASSUMPTIONS = COMMON_ASSUMPTIONS
